@@ -57,6 +57,9 @@ def tlc(module, cfg, workers=16, timeout=1500, extra=None, env=None, dfs=False):
     if m:
         r['depth'] = int(m.group(1))
     r['violated'] = re.findall(r'(?:Invariant|property|Property) (\S+) (?:is|was) violated', out)
+    m = re.search(r'Temporal properties (.*?) were violated', out)
+    if m and not r['violated']:
+        r['violated'] = [x for x in re.split(r',\s*|\s+and\s+|\s+', m.group(1)) if x and x != 'and']
     if 'Temporal properties were violated' in out and not r['violated']:
         r['violated'] = ['temporal']
     r['completed'] = 'Model checking completed. No error has been found.' in out
